@@ -68,7 +68,7 @@ impl Engine {
 }
 
 /// Sentinel offset of the pseudo-match recorded when an exhausted iterator yields again (C09: fused).
-pub const UNFUSED: usize = 999_999_999;
+pub const UNFUSED: usize = 99_999;
 
 struct RestoreSteps(u64, u64);
 impl Drop for RestoreSteps {
